@@ -602,7 +602,16 @@ impl<'a> Peripheral<'a> {
                                 }
                             };
 
-                            if data_ok {
+                            if data_ok
+                                && (t.h.dsap != crate::consts::SAP_MASTER_DATA_EXCHANGE
+                                    || t.h.ssap != crate::consts::SAP_SLAVE_DATA_EXCHANGE)
+                            {
+                                log::warn!(
+                                    "Data-Exchange response by #{} with unexpected SAPs: {t:?}",
+                                    self.address
+                                );
+                                None
+                            } else if data_ok {
                                 if t.pdu.len() == self.pi_i.len() {
                                     self.pi_i.copy_from_slice(t.pdu);
                                     self.state = PeripheralState::DataExchange;
